@@ -522,7 +522,25 @@ def rule_tdigest_sorted_invariant(ctx: Ctx) -> None:
     need(n >= 2, f"C20-6: expected >= 2 places that grow the centroid list (_flush, merge), found {n}")
 
 
+def rule_merged_total_is_sum(ctx: Ctx) -> None:
+    """C20-5: a merged sketch stands for the concatenated stream, so its stream length N is the *sum* of both lengths, however the counters are
+    combined (N/k, the tracking threshold, is derived from it).  TopK.merge replays the other sketch through add(), which itself moves
+    the total (also for own items evicted and re-added during the replay): the total is therefore computed before the replay from the two
+    totals and assigned after it."""
+    prog = ctx.prog
+    mg = prog.func(TOPK, "TopK.merge")
+    ff = ctx.flow(mg)
+    sums = [nd for nd in ff.cfg.nodes if nd.kind == "stmt" and isinstance(nd.ast, ast.Assign) and unparse(nd.ast.value).replace(" ", "") in ("self._total_count+other._total_count", "other._total_count+self._total_count")]
+    loops = [nd for nd in ff.cfg.nodes if nd.kind == "for" and "other._counters" in unparse(nd.ast.iter)]
+    finals = [nd for nd in ff.cfg.nodes if nd.kind == "stmt" and isinstance(nd.ast, (ast.Assign, ast.AugAssign)) and path_of(nd.ast.targets[0] if isinstance(nd.ast, ast.Assign) else nd.ast.target) == "self._total_count"]
+    ok = len(sums) == 1 and len(loops) == 1 and len(finals) == 1 and isinstance(finals[0].ast, ast.Assign) and path_of(finals[0].ast.value) == path_of(sums[0].ast.targets[0])
+    if ok:
+        ok = not always_before(ctx, mg, lambda x: x is sums[0], lambda x: x is loops[0]) and finals[0].in_loops == () and not always_before(ctx, mg, lambda x: x is loops[0], lambda x: x is finals[0])
+    ctx.ob("C20-5", "G2", mg, finals[0].ast if finals else None, ok, "TopK.merge: the merged stream length is `self._total_count + other._total_count`, taken before the replay and assigned after it")
+
+
 def run(ctx: Ctx) -> None:
+    ctx.guarded(rule_merged_total_is_sum)
     ctx.guarded(rule_tdigest_sorted_invariant)
     ctx.guarded(rule_index_sketches)
     ctx.guarded(rule_topk_tdigest)
@@ -532,6 +550,7 @@ def run(ctx: Ctx) -> None:
 
 
 MUTANTS = [
+    ("topk-merge-total-from-replay", TOPK, "        self._total_count = combined_total\n", "        self._total_count += other._total_count - sum(c.count for c in other._counters.values())\n", "C20-5"),
     ("tdigest-weighted-add-appends-unsorted", TD, "    def _flush(self) -> None:", "    def add_weighted(self, value: float, count: int) -> None:\n        self._flush()\n        self._centroids.append(_Centroid(mean=value, count=count))\n        self._total_count += count\n\n    def _flush(self) -> None:", "C20-6"),
     ("tdigest-compress-does-not-sort", TD, "        # Sort centroids by mean\n        self._centroids.sort(key=lambda c: c.mean)\n", "", "C20-6"),
     ("topk-merge-error-max", TOPK, "                self._counters[counter.item].error += counter.error\n            else:", "                self._counters[counter.item].error = max(self._counters[counter.item].error, counter.error)\n            else:", "C20-5"),
